@@ -44,9 +44,10 @@ type (
 		X, I Expr
 	}
 	EQuant struct {
-		Forall bool
-		Vars   []QVar
-		Body   Expr
+		Forall   bool
+		Vars     []QVar
+		Body     Expr
+		Patterns [][]Expr // optional triggers: {a, b} {c}
 	}
 	ESlice struct {
 		X      Expr
@@ -374,7 +375,7 @@ func (p *parser) primary() Expr {
 					if tt.kind == "op" && (tt.s == ")" || tt.s == "]") {
 						depth--
 					}
-					if depth == 0 && tt.kind == "op" && (tt.s == "," || tt.s == "::") {
+					if depth == 0 && tt.kind == "op" && (tt.s == "," || tt.s == "::" || tt.s == "{") {
 						break
 					}
 					p.next()
@@ -384,6 +385,18 @@ func (p *parser) primary() Expr {
 				if p.isOp(",") {
 					p.next()
 					continue
+				}
+				for p.isOp("{") {
+					p.next()
+					var grp []Expr
+					for !p.isOp("}") {
+						grp = append(grp, p.expr(0))
+						if p.isOp(",") {
+							p.next()
+						}
+					}
+					p.expect("}")
+					q.Patterns = append(q.Patterns, grp)
 				}
 				p.expect("::")
 				break
